@@ -121,6 +121,9 @@ class Compiler:
             {}
         )  # bytecode_pos -> (line, column)
         self._current_loc: Optional[Tuple[int, int]] = None  # Current source location
+        # Expression statements of program code set the completion value (not inside
+        # a finally block, whose value does not count)
+        self._completion_off = False
 
     def _scope_catch_parameters(self, root: Node) -> None:
         """Give every catch parameter a name of its own.
@@ -238,18 +241,12 @@ class Compiler:
             if ends_with_declaration:
                 body = body + [EmptyStatement()]
 
-            # Compile all statements except the last one
-            for stmt in body[:-1] if body else []:
+            # The value of the program is its completion value: the value of the
+            # last expression statement that ran (see _reset_completion)
+            for stmt in body:
                 self._compile_statement(stmt)
-
-            # For the last statement, compile with completion value semantics
-            if body:
-                self._compile_statement_for_value(body[-1])
-                self._emit(OpCode.RETURN)
-            else:
-                # Empty program returns undefined
-                self._emit(OpCode.LOAD_UNDEFINED)
-                self._emit(OpCode.RETURN)
+            self._emit(OpCode.LOAD_COMPLETION)
+            self._emit(OpCode.RETURN)
         except RecursionError:
             # The compiler recurses over the syntax tree
             raise self._syntax_error(node, "Program is nested too deeply")
@@ -348,7 +345,7 @@ class Compiler:
                         self.loop_stack.append(
                             LoopContext(is_loop=False, is_try=True, stack_slots=1)
                         )
-                    self._compile_statement(ctx.finalizer)
+                    self._compile_finalizer(ctx.finalizer)
                     self.loop_stack = saved
             if not returning:
                 for _ in range(ctx.stack_slots):
@@ -361,7 +358,7 @@ class Compiler:
             self.loop_stack.append(
                 LoopContext(is_loop=False, is_try=True, stack_slots=1)
             )
-            self._compile_statement(finalizer)
+            self._compile_finalizer(finalizer)
             self.loop_stack.pop()
         self._emit(OpCode.THROW)  # Rethrow the exception
 
@@ -410,6 +407,22 @@ class Compiler:
             isinstance(value, FunctionExpression) and value.id is None
         ):
             value._inferred_name = name
+
+    def _compile_finalizer(self, finalizer: Node) -> None:
+        """A finally block: the values of its expression statements do not count."""
+        outer = self._completion_off
+        self._completion_off = True
+        try:
+            self._compile_statement(finalizer)
+        finally:
+            self._completion_off = outer
+
+    def _reset_completion(self) -> None:
+        """if, loops, switch and try complete with undefined unless a statement in
+        them produces a value (1; if (0) 2 evaluates to undefined)."""
+        if not self._in_function and not self._completion_off:
+            self._emit(OpCode.LOAD_UNDEFINED)
+            self._emit(OpCode.SET_COMPLETION)
 
     def _context_index(self, ctx: LoopContext) -> int:
         """Position of a context on the stack (by identity: contexts compare equal
@@ -607,7 +620,10 @@ class Compiler:
         """Compile a statement."""
         if isinstance(node, ExpressionStatement):
             self._compile_expression(node.expression)
-            self._emit(OpCode.POP)
+            if self._in_function or self._completion_off:
+                self._emit(OpCode.POP)
+            else:
+                self._emit(OpCode.SET_COMPLETION)
 
         elif isinstance(node, BlockStatement):
             # Handle nested blocks iteratively to avoid deep recursion
@@ -667,6 +683,7 @@ class Compiler:
                 self._emit(OpCode.POP)
 
         elif isinstance(node, IfStatement):
+            self._reset_completion()
             self._compile_expression(node.test)
             jump_false = self._emit_jump(OpCode.JUMP_IF_FALSE)
 
@@ -681,6 +698,7 @@ class Compiler:
                 self._patch_jump(jump_false)
 
         elif isinstance(node, WhileStatement):
+            self._reset_completion()
             loop_ctx = LoopContext(label=self._take_label(), more_labels=self._take_more_labels())
             self.loop_stack.append(loop_ctx)
 
@@ -704,6 +722,7 @@ class Compiler:
             self.loop_stack.pop()
 
         elif isinstance(node, DoWhileStatement):
+            self._reset_completion()
             loop_ctx = LoopContext(label=self._take_label(), more_labels=self._take_more_labels())
             self.loop_stack.append(loop_ctx)
 
@@ -725,6 +744,7 @@ class Compiler:
             self.loop_stack.pop()
 
         elif isinstance(node, ForStatement):
+            self._reset_completion()
             loop_ctx = LoopContext(label=self._take_label(), more_labels=self._take_more_labels())
             self.loop_stack.append(loop_ctx)
 
@@ -767,6 +787,7 @@ class Compiler:
             self.loop_stack.pop()
 
         elif isinstance(node, ForInStatement):
+            self._reset_completion()
             loop_ctx = LoopContext(label=self._take_label(), more_labels=self._take_more_labels(), stack_slots=1)
             self.loop_stack.append(loop_ctx)
 
@@ -822,6 +843,7 @@ class Compiler:
             self.loop_stack.pop()
 
         elif isinstance(node, ForOfStatement):
+            self._reset_completion()
             loop_ctx = LoopContext(label=self._take_label(), more_labels=self._take_more_labels(), stack_slots=1)
             self.loop_stack.append(loop_ctx)
 
@@ -944,6 +966,7 @@ class Compiler:
             self._emit(OpCode.THROW)
 
         elif isinstance(node, TryStatement):
+            self._reset_completion()
             # Track the statement so that break/continue/return inside it can
             # end the protected region and run the finally block
             try_ctx = LoopContext(is_loop=False, is_try=True, finalizer=node.finalizer)
@@ -967,6 +990,7 @@ class Compiler:
                 # Store exception in catch variable
                 self._emit_store_variable(node.handler.param.name, declare=True)
                 self._emit(OpCode.POP)
+                self._reset_completion()
                 if node.finalizer:
                     # An exception thrown by the catch block still runs finally
                     catch_guard = self._emit_jump(OpCode.TRY_START)
@@ -992,9 +1016,10 @@ class Compiler:
             # Normal finally block (after try completes normally or after catch)
             self._patch_jump(jump_to_finally)
             if node.finalizer:
-                self._compile_statement(node.finalizer)
+                self._compile_finalizer(node.finalizer)
 
         elif isinstance(node, SwitchStatement):
+            self._reset_completion()
             self._compile_expression(node.discriminant)
 
             jump_to_body: List[Tuple[int, int]] = []
@@ -1124,69 +1149,6 @@ class Compiler:
 
         else:
             raise self._syntax_error(node, f"Cannot compile statement: {type(node).__name__}")
-
-    def _compile_statement_for_value(self, node: Node) -> None:
-        """Compile a statement leaving its completion value on the stack.
-
-        This is used for eval semantics where the last statement's value is returned.
-        """
-        if isinstance(node, ExpressionStatement):
-            # Expression statement: value is the expression's value
-            self._compile_expression(node.expression)
-
-        elif isinstance(node, BlockStatement):
-            # Block statement: value is the last statement's value
-            # Handle nested blocks iteratively to avoid deep recursion
-            current = node
-            intermediate_stmts = []
-
-            # Drill down through nested blocks, collecting intermediate statements
-            while isinstance(current, BlockStatement):
-                if not current.body:
-                    # Empty block returns undefined
-                    for stmt in intermediate_stmts:
-                        self._compile_statement(stmt)
-                    self._emit(OpCode.LOAD_UNDEFINED)
-                    return
-                # Collect all but last statement
-                body = self._declarations_first(current.body)
-                intermediate_stmts.extend(body[:-1])
-                # Continue with last statement
-                current = body[-1]
-
-            # Compile all intermediate statements
-            for stmt in intermediate_stmts:
-                self._compile_statement(stmt)
-
-            # Compile the innermost last statement for value
-            self._compile_statement_for_value(current)
-
-        elif isinstance(node, IfStatement):
-            # If statement: value is the chosen branch's value
-            self._compile_expression(node.test)
-            jump_false = self._emit_jump(OpCode.JUMP_IF_FALSE)
-
-            self._compile_statement_for_value(node.consequent)
-
-            if node.alternate:
-                jump_end = self._emit_jump(OpCode.JUMP)
-                self._patch_jump(jump_false)
-                self._compile_statement_for_value(node.alternate)
-                self._patch_jump(jump_end)
-            else:
-                jump_end = self._emit_jump(OpCode.JUMP)
-                self._patch_jump(jump_false)
-                self._emit(OpCode.LOAD_UNDEFINED)  # No else branch returns undefined
-                self._patch_jump(jump_end)
-
-        elif isinstance(node, EmptyStatement):
-            # Empty statement: value is undefined
-            self._emit(OpCode.LOAD_UNDEFINED)
-
-        else:
-            # Other statements: compile normally, then push undefined
-            self._compile_statement(node)
-            self._emit(OpCode.LOAD_UNDEFINED)
 
     def _find_required_free_vars(self, body: Node, local_vars: set) -> set:
         """Find all free variables required by this function including pass-through.
